@@ -235,6 +235,16 @@ def run_cov(case):
         else:
             for row in zip(*series):
                 rcm.update(*row)
+        if case.get("scribble"):
+            # the caller post-processes "their" matrices in place (turns them
+            # into correlations, zeroes the diagonal ...): the accumulator is
+            # not affected and the next read is the covariance again
+            m0 = rcm.covar_matrix
+            m0 *= 0.0
+            m0 -= 7.0
+            if n > 1:
+                s0 = rcm.sample_covar_matrix
+                s0[...] = -1.0
         M = rcm.covar_matrix
         SM = rcm.sample_covar_matrix if n > 1 else None
         cnt = rcm.count
@@ -360,7 +370,8 @@ def cov_strategy(draw):
             "ties": draw(st.lists(st.tuples(st.integers(0, 199),
                                             st.integers(0, 3)).map(list),
                                   max_size=3)),
-            "discrete": draw(st.sampled_from([None, None, 1, 4]))}
+            "discrete": draw(st.sampled_from([None, None, 1, 4])),
+            "scribble": draw(st.booleans())}
 
 
 @st.composite
